@@ -27,6 +27,9 @@ type Case struct {
 	Dir     string   `json:"dir"`
 	Entries []Entry  `json:"entries"`
 	Queries []string `json:"queries"`
+	// Transient entries are added after Entries and removed again before the
+	// queries: the set that is matched against must be the one that is left
+	Transient []Entry `json:"transient,omitempty"`
 }
 
 type verdict struct{ sig, msg string }
@@ -85,6 +88,14 @@ func runCase(c *Case) *verdict {
 	for _, e := range c.Entries {
 		tree.Add(e.Topic, e.Value)
 		model.Add(e.Topic, e.Value)
+	}
+	for _, e := range c.Transient {
+		tree.Add(e.Topic, e.Value)
+		model.Add(e.Topic, e.Value)
+	}
+	for _, e := range c.Transient {
+		tree.Remove(e.Topic, e.Value)
+		model.Remove(e.Topic, e.Value)
 	}
 	for _, q := range c.Queries {
 		var got []interface{}
@@ -223,7 +234,7 @@ func genFilter(rt *rapid.T, label string) string {
 
 func TestC04(t *testing.T) {
 	run := ev.Start("C04", "exploration")
-	run.Rule("exhaustive: every (filter, name) pair over levels {a,b,empty} plus '+' and a trailing '#' up to depth 4 (424 filters x 119 names) as singleton trees in both directions, and (thorough) all filter pairs x names / name pairs x filters for interference; random: rapid-generated sets of 1-30 entries sharing values, depth up to 12, multi-byte UTF-8 levels. Oracle: independent MQTT 4.7 matcher. non-trivial = the filter has a wildcard or an empty level; distinct by (direction, filter, name) resp. by case JSON")
+	run.Rule("exhaustive: every (filter, name) pair over levels {a,b,empty} plus '+' and a trailing '#' up to depth 4 (424 filters x 119 names) as singleton trees in both directions, and (thorough) all filter pairs x names / name pairs x filters for interference; random: rapid-generated sets of 1-30 entries sharing values, depth up to 12, multi-byte UTF-8 levels, plus 0-3 transient entries (a child, the parent, the same topic with another value, or a random one) that are added and removed again before the queries. Oracle: independent MQTT 4.7 matcher. non-trivial = the filter has a wildcard or an empty level; distinct by (direction, filter, name) resp. by case JSON")
 	run.Assume("names are free of wildcards and U+0000 and do not start with '$'; filters are syntactically valid; values are comparable and non-nil")
 	defer run.Finish(t)
 	shard, shards := ev.Shard()
@@ -384,6 +395,37 @@ func TestC04(t *testing.T) {
 				tp = genName(rt, "n")
 			}
 			c.Entries = append(c.Entries, Entry{tp, rapid.IntRange(0, 5).Draw(rt, "v")})
+		}
+		// entries that come and go: below, above or beside the stored ones
+		for k := rapid.IntRange(0, 3).Draw(rt, "transient"); k > 0; k-- {
+			base := c.Entries[rapid.IntRange(0, len(c.Entries)-1).Draw(rt, "tbase")].Topic
+			var tp string
+			switch rapid.IntRange(0, 3).Draw(rt, "tshape") {
+			case 0: // a child
+				if strings.HasSuffix(base, "#") {
+					tp = base
+				} else {
+					tp = base + "/" + rapid.SampledFrom(levelAlphabet).Draw(rt, "tl")
+				}
+			case 1: // the parent
+				if i := strings.LastIndex(base, "/"); i > 0 {
+					tp = base[:i]
+				} else {
+					tp = base
+				}
+			case 2: // the same topic, another value
+				tp = base
+			default:
+				if c.Dir == "match" {
+					tp = genFilter(rt, "tf")
+				} else {
+					tp = genName(rt, "tn")
+				}
+			}
+			c.Transient = append(c.Transient, Entry{tp, rapid.IntRange(6, 9).Draw(rt, "tv")})
+		}
+		if len(c.Transient) > 0 {
+			run.Class("with-transient-entries")
 		}
 		q := rapid.IntRange(1, 8).Draw(rt, "q")
 		for i := 0; i < q; i++ {
